@@ -572,6 +572,26 @@ def _biogeme_paths(rec, viol, spec, names, bv, ref, gref, href, outer, gscale, h
     if reported != names:
         viol('reported-free-parameter-list-not-sorted-names', f'{reported} vs {names}')
         return
+    # every flag combination of the likelihood entry point: the requested matrices must be the same numbers
+    for scaled in (False, True):
+        d_ = float(nrows) if scaled else 1.0
+        for hh, bb in ((True, False), (False, True), (False, False)):
+            try:
+                rf = bg.calculate_likelihood_and_derivatives(x, scaled=scaled, hessian=hh, bhhh=bb)
+            except BaseException as e:
+                viol(f'calculate_likelihood_and_derivatives-raises-{type(e).__name__}', f'scaled={scaled} hessian={hh} bhhh={bb}: {e}')
+                continue
+            rec.ev()
+            rec.c(f'likelihood_flags_scaled{int(scaled)}_h{int(hh)}_b{int(bb)}')
+            if not close(rf.function, ref.sum() / d_, 1e-6, 1e-8 * max(1.0, np.abs(ref).sum())):
+                viol('likelihood-value-differs-for-flag-combination', f'scaled={scaled} hessian={hh} bhhh={bb}: {rf.function} vs {ref.sum() / d_}')
+            if not close(rf.gradient, gsum / d_, g_rtol * 10, g_rtol * gscale * nrows):
+                viol('likelihood-gradient-differs-for-flag-combination', f'scaled={scaled} hessian={hh} bhhh={bb}: {np.asarray(rf.gradient).tolist()} vs {(gsum / d_).tolist()}')
+            if hh and not close(rf.hessian, hsum / d_, H_RTOL * 10, H_RTOL * hscale * nrows):
+                viol('likelihood-hessian-differs-for-flag-combination',
+                     f'scaled={scaled} hessian={hh} bhhh={bb}: {np.asarray(rf.hessian).tolist()} vs {(hsum / d_).tolist()}')
+            if bb and not close(rf.bhhh, outer.sum(axis=0) / d_, 1e-6, 1e-8 * gscale * gscale * nrows):
+                viol('likelihood-bhhh-differs-for-flag-combination', f'scaled={scaled} hessian={hh} bhhh={bb}')
     for scaled in (False, True):
         try:
             r = bg.calculate_likelihood_and_derivatives(x, scaled=scaled, hessian=True, bhhh=True)
